@@ -195,6 +195,27 @@ PROPS = {
         ],
         'not_covered': ['proxy() itself (select! expansion)', 'the decoder half (partial frames survive a dropped read) is C02'],
     },
+    'C11': {
+        'units': ['pubsub'],
+        'scope': [
+            # delivery: PUB / XPUB send hands the message to a subscriber's writer iff a subscription is a prefix, once
+            ('pubsub', r'^(PubSocket|XPubSocket)::send$', A, None),
+            # bookkeeping: SUBSCRIBE appends, CANCEL removes the first equal topic, anything else changes nothing
+            ('pubsub', r'^(PubSocketBackend|XPubSocketBackend)::message_received$', A, None),
+            ('pubsub', r'^(PubSocketBackend|XPubSocketBackend)::peer_disconnected$', A, None),
+            ('pubsub', r'^ZmqMessage::into_vec$', A, None),
+        ],
+        'kani': {},
+        'assumptions': [
+            'scc traversal (begin_async / next_async / OccupiedEntry Deref, DerefMut, key) is a stand-in cursor: it visits every key of the table exactly once in an order of its choosing, a change through the entry is a change of the table at that key, and the table afterwards is what the entries left (prophecy of the borrow). ASSUMED, sequential scope: nobody else touches the table during the traversal',
+            '`subscriber.send_queue.as_mut().try_send(item)` is an assumed expression (Pin / TrySend over the external FramedWrite): one call hands exactly this item to exactly this writer, whatever the result; "delivered" below means handed to the connection\'s writer - whether the writer accepts or drops it at the high-water mark is C12',
+            '`e.kind() == ErrorKind::BrokenPipe` is an assumed pure test (std::io::Error is external)',
+            '`entry.subscriptions.iter().position(|s| s == &sub)` in message_received is an assumed expression (first index with equal octets)',
+            'ZmqMessage::clone is written out (derive dropped, D3) and verified to keep the frames',
+            'send requires a message with at least one frame (an empty ZmqMessage makes `message.get(0).unwrap()` panic; ZmqMessage constructors never build one, split_off(0) can)',
+        ],
+        'not_covered': ['that subscription messages of one peer are processed in per-connection order, and the race between the PUB reader task and send (concurrency)', 'XPUB handing every subscription message to the application verbatim (XPubSocket::recv is under contract in unit routing for C14 only)', 'what happens on the Err path of send (a fatal writer error aborts the traversal: subscribers not yet visited get nothing)'],
+    },
     'C03': {
         'units': ['codec', 'handshake', 'pubsub'],
         'scope': [
